@@ -1,8 +1,8 @@
 (* ops_io.ml — case handlers for the four minicbor-io machines (C14, C15, C16).
      IOR  max=<n> frames=<items> dec=<bits> cut=<k|-> sched=<toks>          blocking Reader
-     IOW  max=<n> vals=<items> sink=<A/E per value|->                        blocking Writer
+     IOW  max=<n> vals=<items | F | M<n>> sink=<A/E per item|->               blocking Writer (F flush, M<n> set_max_len)
      AIOR max=<n> frames=<items> dec=<bits> cut=<k|-> src=<toks> calls=<P/X string|->     AsyncReader
-     AIOW max=<n> vals=<items> sink=<toks> calls=<P/X string|->              AsyncWriter
+     AIOW max=<n> vals=<items> sink=<toks> calls=<P/X string|-> [ops=<gaps>] [fl=<toks>]   AsyncWriter
    frames items (comma separated, `-` = none): <hex> a frame with that payload, `.` a frame with the empty
    payload, r<hex> raw bytes put into the stream as they are.  dec: one bit per non-raw item, 1 = the
    payload decodes.  vals items: <hex> / `.` the content of a byte string value, !<hex> / `!.` a value
@@ -97,28 +97,61 @@ let show_sres (r : sres) : string =
   match r with
   | SOk -> "s" | SErr e -> "se:" ^ show_ioerr e | SPanic -> "spanic" | SFuel -> "sfuel"
 
+(* vals items of IOW may also be caller operations: F (Writer::flush; the sink letter of that position says whether
+   the inner flush succeeds) and M<n> (set_max_len n; its sink letter is ignored) *)
 let iow_handler (args : string list) : string =
   let max = n_of_string (kv args "max") in
   let vals = items (kv args "vals") in
   let sk = kv args "sink" in
-  let es = List.mapi (fun i it -> (enc_of_item it, not (sk <> "-" && i < String.length sk && sk.[i] = 'E'))) vals in
-  let ((rs, w), chunks) = fio_write_run max es in
+  let ops = List.mapi (fun i it ->
+    let ok = not (sk <> "-" && i < String.length sk && sk.[i] = 'E') in
+    if it = "F" then WopFlush ok
+    else if String.length it > 1 && it.[0] = 'M' then WopSetMax (n_of_string (String.sub it 1 (String.length it - 1)))
+    else WopVal (enc_of_item it, ok)) vals in
+  let ((rs, w), chunks) = fio_write_run_ops max ops in
+  let show r = (match r with
+    | WrVal r -> show_wres "w" r
+    | WrFlush true -> "f" | WrFlush false -> "fe:io"
+    | WrSetMax v -> "m" ^ string_of_n v) in
   with_spec
-    (Printf.sprintf "%s sink=%s buf=%s" (show_list_or_dash (List.map (show_wres "w") rs)) (show_chunks chunks) (hex_or_dash w.w_buf))
+    (Printf.sprintf "%s sink=%s buf=%s" (show_list_or_dash (List.map show rs)) (show_chunks chunks) (hex_or_dash w.w_buf))
     "-"
+
+(* caller operations between the protocol calls (ops=): a stream of gaps separated by `/`, one gap consumed at
+   every point where the caller holds no pending future (before each write, before each (re-)issued sync, before
+   the final sync); a gap is `-` or a comma separated list of  F[PX]*  (flush; after every Pending of poll_flush
+   the next letter decides: P poll again, X drop; no letter left = poll again; `Fx` = `FX`)  and  M<n>
+   (set_max_len n).  fl= is the poll_flush script of the sink: R / P / E per inner poll_flush, then Ready. *)
+let op_of_tok (t : string) : cop =
+  if String.length t > 0 && t.[0] = 'F' then
+    OpFlush (List.init (String.length t - 1) (fun i -> if t.[i + 1] = 'X' || t.[i + 1] = 'x' then CDrop else CPoll))
+  else if String.length t > 1 && t.[0] = 'M' then OpSetMax (n_of_string (String.sub t 1 (String.length t - 1)))
+  else failwith ("bad op token " ^ t)
+
+let gaps_of (s : string) : cop list list =
+  if s = "-" || s = "" then [] else List.map (fun g -> List.map op_of_tok (items g)) (String.split_on_char '/' s)
+
+let show_flres (r : flres) : string =
+  match r with FlOk -> "f" | FlErr e -> "fe:" ^ show_ioerr e | FlDropped -> "fx" | FlFuel -> "ffuel"
 
 let aiow_handler (args : string list) : string =
   let max = n_of_string (kv args "max") in
   let es = List.map enc_of_item (items (kv args "vals")) in
   let sched = List.map (fun t -> match t with "P" -> KPend | "E" -> KErr | k -> KAccept (n_of_string k)) (items (kv args "sink")) in
+  let fsched = List.map (fun t -> match t with "P" -> KfPend | "E" -> KfErr | "R" -> KfReady | t -> failwith ("bad fl token " ^ t)) (items (kv args "fl")) in
   let cs = kv args "calls" in
   let calls = if cs = "-" then [] else List.init (String.length cs) (fun i -> if cs.[i] = 'X' then CDrop else CPoll) in
-  let (((evss, fin), w), k) = aio_write_run max es sched calls in
-  let show_ev e = (match e with EvW r -> show_wres "w" r | EvS r -> show_sres r) in
-  let evtxt = if evss = [] then "-" else String.concat ";" (List.map (fun evs -> String.concat "," (List.map show_ev evs)) evss) in
-  let fintxt = (match fin with SyReady r -> show_sres r | SyPend -> "pend") in
+  let gaps = gaps_of (kv args "ops") in
+  let ((((evss, finevs), fin), w), s) = aio_write_run_ops max es sched fsched calls gaps in
+  let show_ev e = (match e with
+    | OEvW (EvW r) -> show_wres "w" r | OEvW (EvS r) -> show_sres r
+    | OEvF r -> show_flres r | OEvM v -> "m" ^ string_of_n v) in
+  let evtxt = if evss = [] then "-" else String.concat ";" (List.map (fun (pre, evs) -> String.concat "," (List.map show_ev (pre @ evs))) evss) in
+  let fintxt = String.concat "," (List.map show_ev finevs @ [(match fin with SyReady r -> show_sres r | SyPend -> "pend")]) in
+  let k = s.os_w in
   with_spec
-    (Printf.sprintf "%s fin=%s sink=%s calls=%s buf=%s" evtxt fintxt (show_chunks k.k_out) (string_of_n k.k_calls) (hex_or_dash w.aw_buf))
+    (Printf.sprintf "%s fin=%s sink=%s calls=%s fl=%s buf=%s" evtxt fintxt (show_chunks k.k_out) (string_of_n k.k_calls)
+       (string_of_n s.os_f.kf_calls) (hex_or_dash w.aw_buf))
     "-"
 
 let () =
